@@ -909,6 +909,18 @@ def check_bigint(ctx, cfg, binary):
                 if ctx.hist['observation:bigint-beyond-parser-range-failures'] == 1:
                     ctx.sample({'observation': 'limb arithmetic fails beyond the parser\'s operand range (unreachable code)', 'op': line[:200], 'actual': a[:80]})
     ctx.count('bigint-ops', len(cases))
+    # the LIMB-LEVEL model (Model/LexBig.v, proved to refine the Z operations of Model/Lex.v) against the crate, limb for limb: same line, same
+    # output vector (also the PANIC outcomes of the unreachable Karatsuba / large-power path on a few beyond-range cases)
+    if ctx.model_ok and os.path.exists(os.path.join(engine.VERIF, 'ocaml', 'sjdriver_lexbig')):
+        idx = [i for i, c in enumerate(cases) if c[2]]
+        idx = idx[::2] if ctx.tier == 'quick' else idx
+        far = [i for i, c in enumerate(cases) if not c[2] and len(c[0]) < 2500][:12 if ctx.tier == 'quick' else 60]
+        sel = idx + far
+        mouts = ctx.model([cases[i][0] for i in sel], 'sjdriver_lexbig')
+        for i, m in zip(sel, mouts):
+            if m != outs[i]:
+                v.append({'what': 'bigint-limb-model-differs', 'cfg': cfg, 'input': cases[i][0][:300], 'expected': 'limb model (Model/LexBig.v): ' + m[:300], 'actual': outs[i][:300], 'shrinkable': False})
+        ctx.count('bigint-limb-model-lines', len(sel))
     return v
 
 # ====================================================================================== the check
